@@ -23,6 +23,7 @@ pub fn singleton_load__KEY_CONFIG(storage: &dyn Storage) -> (r: StdResult<Config
 #[verifier::external_body]
 pub fn singleton_save__KEY_CONFIG(storage: &mut dyn Storage, v: &Config) -> (r: StdResult<()>)
     ensures
+        r is Ok,   // serde serialisation of these plain types cannot fail (T4)
         r is Ok ==> final(storage).view() == (Store { config: Some(*v), ..old(storage).view() }),
         r is Err ==> final(storage).view() == old(storage).view(),
 { unimplemented!() }
@@ -33,6 +34,7 @@ pub fn singleton_load__KEY_STATE(storage: &dyn Storage) -> (r: StdResult<State>)
 #[verifier::external_body]
 pub fn singleton_save__KEY_STATE(storage: &mut dyn Storage, v: &State) -> (r: StdResult<()>)
     ensures
+        r is Ok,   // serde serialisation of these plain types cannot fail (T4)
         r is Ok ==> final(storage).view() == (Store { state: Some(*v), ..old(storage).view() }),
         r is Err ==> final(storage).view() == old(storage).view(),
 { unimplemented!() }
@@ -40,6 +42,7 @@ pub fn singleton_save__KEY_STATE(storage: &mut dyn Storage, v: &State) -> (r: St
 #[verifier::external_body]
 pub fn singleton_save__KEY_SENT_FUNDS(storage: &mut dyn Storage, v: &SentFunds) -> (r: StdResult<()>)
     ensures
+        r is Ok,   // serde serialisation of these plain types cannot fail (T4)
         r is Ok ==> final(storage).view() == (Store { sent_funds: Some(*v), ..old(storage).view() }),
         r is Err ==> final(storage).view() == old(storage).view(),
 { unimplemented!() }
@@ -55,6 +58,7 @@ pub fn singleton_remove__KEY_SENT_FUNDS(storage: &mut dyn Storage)
 #[verifier::external_body]
 pub fn singleton_save__KEY_TMP_SWAP(storage: &mut dyn Storage, v: &TmpSwapInfo) -> (r: StdResult<()>)
     ensures
+        r is Ok,   // serde serialisation of these plain types cannot fail (T4)
         r is Ok ==> final(storage).view() == (Store { tmp_swap: Some(*v), ..old(storage).view() }),
         r is Err ==> final(storage).view() == old(storage).view(),
 { unimplemented!() }
@@ -70,6 +74,7 @@ pub fn singleton_remove__KEY_TMP_SWAP(storage: &mut dyn Storage)
 #[verifier::external_body]
 pub fn singleton_save__KEY_TMP_LIQUIDATOR(storage: &mut dyn Storage, v: &Addr) -> (r: StdResult<()>)
     ensures
+        r is Ok,   // serde serialisation of these plain types cannot fail (T4)
         r is Ok ==> final(storage).view() == (Store { tmp_liquidator: Some(*v), ..old(storage).view() }),
         r is Err ==> final(storage).view() == old(storage).view(),
 { unimplemented!() }
@@ -117,6 +122,7 @@ impl AsBytesShim for Addr {
 #[verifier::external_body]
 pub fn bucket_save__KEY_VAMM_MAP(storage: &mut dyn Storage, key: AddrBytes, v: &VammMap) -> (r: StdResult<()>)
     ensures
+        r is Ok,   // serde serialisation of these plain types cannot fail (T4)
         r is Ok ==> final(storage).view() == (Store { vamm_map: old(storage).view().vamm_map.insert(key.k@, *v), ..old(storage).view() }),
         r is Err ==> final(storage).view() == old(storage).view(),
 { unimplemented!() }
